@@ -575,6 +575,52 @@ def sticky_capture_flags(R, ctx):
         R.ob(rid, "%s|flags-sticky-and-set-when-shadowed" % short, not bad, ctx.where(fn), "all %d states" % n if not bad else bad[0])
 
 
+def branch_order(R, ctx):
+    """remove_if_expression end to end: the lowered chain tests the conditions in source order."""
+    from .. import peval
+    from ..peval import Enum, Struct, UNKNOWN, NONE, some, make
+    from .c17 import tags_in_order
+    rid = "C06.fold"
+    lib = ctx.lib
+    N = "nodes::expressions::"
+    IFE, ELIF = N + "if_expression::IfExpression", N + "if_expression::ElseIfExpressionBranch"
+    PROC = "rules::remove_if_expression::Processor"
+    fn = lib.fn("<%s as process::node_processor::NodeProcessor>::process_expression" % PROC)
+    if not R.require(rid, "anchor:remove_if_expression", fn is not None, "", "process_expression not found"):
+        return
+
+    def leaf(t):
+        return Enum(EXPR, "Identifier", {"0": Struct("#payload", {"#tag": t})})
+    for know, label in ((NONE, "unknown"), (some(True), "truthy")):
+        for nb in (0, 1, 2, 3):
+            want = ["c", "r"]
+            branches = []
+            for i in range(nb):
+                branches.append(make(lib, ELIF, {"condition": leaf("c%d" % i), "result": leaf("r%d" % i)}))
+                want += ["c%d" % i, "r%d" % i]
+            want.append("e")
+            e = Enum(EXPR, "If", {"0": make(lib, IFE, {"condition": leaf("c"), "result": leaf("r"), "else_result": leaf("e"), "branches": branches})})
+
+            def hook(pe, path, fname, args, node, know=know):
+                if fname == "evaluate" and len(args) == 2:
+                    return Struct("#LuaValue", {})
+                if args and isinstance(args[0], Struct) and args[0].adt == "#LuaValue":
+                    return know if fname == "is_truthy" else UNKNOWN
+                return NotImplemented
+            pe = peval.PEval(lib, ctx.an, hook)
+            dflt = lib.fn("<%s as core::default::Default>::default" % PROC)
+            try:
+                proc = pe.call_fn(dflt, []) if dflt else make(lib, PROC)
+                pe.call_fn(fn, [proc, e])
+            except peval.OutOfFuel:
+                pass
+            got = tags_in_order(e)
+            ok = got == want and not (isinstance(e, Enum) and e.variant == "If")
+            R.ob(rid, "remove_if_expression|order|results-%s|%d-elseif" % (label, nb), ok and not pe.unknown_reasons, ctx.where(fn),
+                 "conditions and results appear in source order" if ok and not pe.unknown_reasons else
+                 ("the lowered expression evaluates %s instead of %s: a later condition is tested before an earlier one" % (got, want) if not pe.unknown_reasons else "not established %s" % pe.unknown_reasons[:2]))
+
+
 def run(R, ctx):
     R.explanation = (
         "Structural necessary conditions of the lowering rules on typed THIR: subset relation between the duplicated-without-temporary "
@@ -592,3 +638,4 @@ def run(R, ctx):
     repeat_scope(R, ctx)
     format_specifier(R, ctx)
     sticky_capture_flags(R, ctx)
+    branch_order(R, ctx)
